@@ -56,6 +56,10 @@ TRUSTED = [
     "leaves it at the RESUME instruction the frame (re)starts from",
     "return-like opcodes are the RETURN_* opcodes other than RETURN_GENERATOR",
     "an exception thrown into a suspended generator/coroutine (throw, close) delivers a 'call' event with f_lasti still at the YIELD_VALUE",
+    "when that exception leaves the frame (close() of a suspended generator, an uncaught throw(), cancellation of an awaiting coroutine) the "
+    "unwinding 'return' event has arg None and f_lasti still at that YIELD_VALUE - the same observation as a yield of None (checked on the "
+    "analysing interpreter, CPython 3.12)",
+    "at a yield of an async generator the 'return' event's arg is CPython's internal async_generator_wrapped_value box, not the yielded value",
 ]
 
 
@@ -100,6 +104,9 @@ def corpus_points() -> Tuple[List[Point], List[Point]]:
                 if ykind == "none":
                     raise AnalysisError("corpus: unexpected YIELD_VALUE")
                 ret.append(Point(src, code, i.offset, i.opname, ykind))
+                # throw()/close() into the suspended frame whose exception leaves the frame: the unwinding 'return' event
+                # (arg None) is delivered with f_lasti still at this instruction
+                ret.append(Point(src, code, i.offset, i.opname, "unwind"))
                 # throw()/close() into the suspended frame deliver a 'call' event at this very instruction
                 call.append(Point(src, code, i.offset, i.opname, "resume"))
             elif i.opname in ("RESUME",):
